@@ -174,6 +174,9 @@ class TheoryOracle(walkers.DagWalker):
             theory.strings = True
         elif ty.is_custom_type():
             theory.custom_type = True
+            # The arguments of a parametric sort bring their theories
+            for arg in (ty.args or ()):
+                theory = theory.combine(self._theory_from_type(arg))
         else:
             # ty is either a function type
             theory.uninterpreted = True
